@@ -241,7 +241,7 @@ Lemma cross_test_sound (l sc ec so eo : Q) :
 Proof.
   intros Hl. unfold cross_test. rewrite !andb_true_iff, !Qltb_iff, !Qleb_iff.
   intros [[[H1 H2] H3] H4]. exists (t_param l ec sc).
-  assert (Hl' : 0 <= l /\ l <= 1) by (destruct Hl as [Hl|Hl]; rewrite Hl; split; lra). clear Hl.
+  assert (Hl' : 0 <= l /\ l <= 1) by (destruct Hl as [Hl|Hl]; rewrite Hl; split; lra). clear Hl. destruct Hl' as [Hl0 Hl1].
   repeat split; try lra.
   - revert H1. unfold t_param. destruct (Qeqb (sc - ec) 0) eqn:E.
     + apply Qeqb_iff in E. destruct (Qeqb l ec) eqn:E2.
@@ -272,5 +272,6 @@ Proof.
   - unfold line_fully_in_unit_cell in Hf. rewrite !andb_true_iff, !Qltb_iff in Hf.
     assert (Hin : in_unit_square (seg_point s 0)).
     { unfold in_unit_square, seg_point. cbn [px py fst snd]. rewrite !lerp_at_0. unfold px, py in *. lra. }
-    destruct (proj2 (clip_interval_correct s 0) (conj (Qle_refl 0) (conj ltac:(lra) Hin))) as (lo & hi & E & _). eauto.
+    assert (H01 : 0 <= 1) by lra.
+    destruct (proj2 (clip_interval_correct s 0) (conj (Qle_refl 0) (conj H01 Hin))) as (lo & hi & E & _). eauto.
 Qed.
